@@ -146,7 +146,7 @@ structure Truth where
 /-- ground truth of a call with the single injected failure `inj`, where firing method_call raises
     `co` and firing method_return_object raises `ro` (if it gets that far) -/
 def truth (inj : Inj) (co ro : Option ExcKind) : Truth :=
-  let preFail := inj.stage = .createInDoc || inj.stage = .decompose || inj.stage = .genContexts
+  let preFail := inj.stage = .refuse || inj.stage = .createInDoc || inj.stage = .decompose || inj.stage = .genContexts
                   || inj.stage = .deserialize
   let callFail := !preFail && co.isSome
   let dispatchFail := !preFail && !callFail && inj.stage = .dispatch
@@ -203,7 +203,7 @@ def allEvent : List Event :=
    .wsgiCall, .wsgiReturn, .wsgiException, .wsgiClose, .other]
 def allSym : List Sym := .user :: allEvent.map .ev
 def allTransport : List Transport := [.serverBase, .wsgi]
-def allStage : List Stage := [.none, .createInDoc, .decompose, .genContexts, .deserialize, .dispatch, .user, .serialize]
+def allStage : List Stage := [.none, .refuse, .createInDoc, .decompose, .genContexts, .deserialize, .dispatch, .user, .serialize]
 def allKind : List ExcKind := [.fault, .exc]
 def allOptKind : List (Option ExcKind) := [none, some .fault, some .exc]
 def allInj : List Inj :=
